@@ -66,6 +66,7 @@ type crashCtx struct {
 	times   bool
 	imgN    int
 	synced  map[string]int64 // base name → fsynced length
+	retry   *klevdb.Options  // the operation in flight is an Open with these options: it is retried on the image
 }
 
 func (c *crashCtx) opts(recover bool) klevdb.Options {
@@ -135,9 +136,61 @@ func (c *crashCtx) observeImage(img string) string {
 				app = "check-" + classify(err)
 			}
 		}
-		return fmt.Sprintf("ok %d %s views=%s again=%s append=%s", next, fmtMsgs(all), views, again, app)
+		return fmt.Sprintf("ok %d %s views=%s again=%s append=%s retry=%s", next, fmtMsgs(all), views, again, app, c.retryOpen(img, next, all))
 	}()
 	return res
+}
+
+// retryOpen: the interrupted Open is run again with its own options on the crashed directory
+// (that is what a user does). If it succeeds the directory must pass Check and, with every
+// index file removed (so the logs themselves are read), hold the same content.
+func (c *crashCtx) retryOpen(img string, next int64, all []klevdb.Message) string {
+	if c.retry == nil {
+		return "-"
+	}
+	work := filepath.Join(c.root, "retry")
+	_ = os.RemoveAll(work)
+	copyDir(img, work)
+	defer os.RemoveAll(work)
+	l, err := klevdb.Open(work, *c.retry)
+	if err != nil {
+		return "open-" + classify(err) // legitimate on a torn image without Recover
+	}
+	if err := l.Close(); err != nil {
+		return "close-" + classify(err)
+	}
+	if err := klevdb.Check(work, c.opts(false)); err != nil {
+		return "check-" + classify(err)
+	}
+	ents, _ := os.ReadDir(work)
+	for _, e := range ents {
+		if strings.HasSuffix(e.Name(), ".index") {
+			_ = os.Remove(filepath.Join(work, e.Name()))
+		}
+	}
+	l2, err := klevdb.Open(work, c.opts(false))
+	if err != nil {
+		return "reopen-" + classify(err)
+	}
+	defer l2.Close()
+	var got []klevdb.Message
+	off := klevdb.OffsetOldest
+	for i := 0; i < 100000; i++ {
+		nxt, ms, err := l2.Consume(off, 32)
+		if err != nil {
+			return "scan-" + classify(err)
+		}
+		if len(ms) == 0 && (nxt == off || off < 0) {
+			break
+		}
+		got = append(got, ms...)
+		off = nxt
+	}
+	n2, _ := l2.NextOffset()
+	if n2 != next || fmtMsgs(got) != fmtMsgs(all) {
+		return "diff"
+	}
+	return "same"
 }
 
 // viewsAgree: Get, key and time lookups and Stat agree with the scan.
@@ -308,6 +361,11 @@ func genCrash(w *bufio.Writer, root string, seed uint64, n, ops int, thorough bo
 			fmt.Fprintf(w, "fsobs => %s\n", fsobs(dir))
 			fmt.Fprintf(w, "crash.begin => ok\n")
 			var lhs, res string
+			c.retry = nil
+			if strings.HasPrefix(line, "open ") {
+				o := parseOpts(strings.Fields(line)[1:])
+				c.retry = &o
+			}
 			evs := c.tapOp(dir, func() { lhs, res = run.Exec(line) })
 			fmt.Fprintf(w, "%s => %s\n", lhs, res)
 			for k, ev := range evs {
@@ -355,6 +413,7 @@ func genCrash(w *bufio.Writer, root string, seed uint64, n, ops int, thorough bo
 			for _, ev := range evs {
 				_ = os.RemoveAll(ev.img)
 			}
+			c.retry = nil
 			fmt.Fprintf(w, "crash.end => ok\n")
 			// power loss after the op has returned (C06)
 			c.lossImages(w, dir, r, thorough)
